@@ -115,6 +115,7 @@ class PartialReduceBlock(FuncSpec):
 
     target = f"{OPS}:_partial_reduce"
     props = ("C01", "C12")
+    quick_props = ("C12",)
 
     def configs(self, tier):
         out = []
@@ -166,6 +167,7 @@ class PartialReduce(ArrayOpSpec):
 
     target = f"{OPS}:partial_reduce"
     props = ("C01", "C12", "C17", "C03")
+    quick_props = ("C12", "C03")
 
     def configs(self, tier):
         out = []
@@ -276,6 +278,7 @@ class Scan(ArrayOpSpec):
 
     target = f"{OPS}:scan"
     props = ("C01", "C12", "C17")
+    quick_props = ("C17",)
 
     def configs(self, tier):
         if tier == "quick":
